@@ -69,6 +69,9 @@ FOREIGN_GENERIC_DELEGATES = {
     "serde_core::de::Deserializer::deserialize_bytes": ("serde::deserialize_*", "crate::support::serde"),
     "diesel::deserialize::FromSql::from_sql": ("diesel::from_sql", "crate::support::diesel"),
     "sqlx_core::decode::Decode::decode": ("sqlx::decode", "crate::support::sqlx"),
+    # `iter.copied().sum()` inside `Sum<&Uint>`: Iterator::sum::<Uint> dispatches to the local `Sum<Uint> for Uint`
+    "core::iter::traits::iterator::Iterator::sum": ("Iterator::sum", "crate::add"),
+    "core::iter::traits::iterator::Iterator::product": ("Iterator::product", "crate::mul"),
 }
 
 
